@@ -151,11 +151,13 @@ type kindSpec struct {
 	other    []tableSpec // further event tables (position invariants, own checks)
 	first    func(syncStart uint64) uint64
 	maxSpan  func(m *machine) uint64
-	build    func(m *machine, node *dbNode) func(context.Context, *types.Header) error
+	build    func(m *machine, node *dbNode) (syncFn, func())
 	genLog   func(g *genCtx) (fakechain.LogSpec, *refEvent)
 	extra    func(m *machine, sh *shadowDB, n uint64, hash []byte) (sig, detail string)
 	setup    func(rt *rapid.T, m *machine)
 }
+
+type syncFn = func(context.Context, *types.Header) error
 
 type genCtx struct {
 	rt  *rapid.T
@@ -177,15 +179,14 @@ var kindRegistry = &kindSpec{
 	exact:  []tableSpec{{"identity_registered_event", []string{"identity_prefix", "sender"}}},
 	first:  func(s uint64) uint64 { return s },
 	maxSpan: func(*machine) uint64 { return fixedMaxSpan },
-	build: func(m *machine, node *dbNode) func(context.Context, *types.Header) error {
+	build: func(m *machine, node *dbNode) (syncFn, func()) {
 		cl := m.chain.Client()
-		m.clients = append(m.clients, cl.Close)
 		contract, err := registryBindings.NewShutterregistry(registryAddr, cl)
 		if err != nil {
 			panic(err)
 		}
 		s := &svc.RegistrySyncer{Contract: contract, DBPool: node.Pool, ExecutionClient: cl, SyncStartBlockNumber: m.syncStart}
-		return s.Sync
+		return s.Sync, cl.Close
 	},
 	genLog: func(g *genCtx) (fakechain.LogSpec, *refEvent) {
 		switch rapid.IntRange(0, 11).Draw(g.rt, g.l+"class") {
@@ -208,17 +209,9 @@ var kindRegistry = &kindSpec{
 			id = g.m.nextID
 			g.m.nextID++
 		}
-		g.st.regUsed[fmt.Sprint(id)] = true
-		prefix, sender := smallHash(0xaa, id+1), smallAddr(0x10+id%3)
 		eon := rapid.SampledFrom(eonChoices).Draw(g.rt, g.l+"eon")
 		ts := g.tm + uint64(rapid.IntRange(0, 100).Draw(g.rt, g.l+"ts"))
-		ev := &refEvent{table: "identity_registered_event", admissible: eon <= math.MaxInt64}
-		ev.cols = map[string]any{
-			"eon": int64(eon), "identity_prefix": prefix.Bytes(), "sender": sender.Hex(), "timestamp": int64(ts),
-			"decrypted": false, "identity": identityOf(prefix.Bytes(), sender.Bytes()),
-		}
-		ev.key = pkOf(ev.cols, []string{"identity_prefix", "sender"})
-		return encIdentityRegistered(registryAddr, eon, prefix, sender, ts), ev
+		return mkRegistryEvent(g.st, id, eon, ts)
 	},
 }
 
@@ -229,16 +222,15 @@ var kindSequencer = &kindSpec{
 	exact:  []tableSpec{{"transaction_submitted_event", []string{"index", "eon"}}},
 	first:  func(s uint64) uint64 { return s },
 	maxSpan: func(*machine) uint64 { return fixedMaxSpan },
-	build: func(m *machine, node *dbNode) func(context.Context, *types.Header) error {
+	build: func(m *machine, node *dbNode) (syncFn, func()) {
 		cl := m.chain.Client()
-		m.clients = append(m.clients, cl.Close)
 		contract, err := sequencerBindings.NewSequencer(sequencerAddr, cl)
 		if err != nil {
 			panic(err)
 		}
 		s := &gnosis.SequencerSyncer{Contract: contract, DBPool: node.Pool, ExecutionClient: cl,
 			GenesisSlotTimestamp: genesisTime, SecondsPerSlot: blockSeconds, SyncStartBlockNumber: m.syncStart}
-		return s.Sync
+		return s.Sync, cl.Close
 	},
 	genLog: func(g *genCtx) (fakechain.LogSpec, *refEvent) {
 		switch rapid.IntRange(0, 11).Draw(g.rt, g.l+"class") {
@@ -248,17 +240,12 @@ var kindSequencer = &kindSpec{
 			return otherEventLog(sequencerABI, sequencerAddr, "TransactionSubmitted"), &refEvent{}
 		}
 		eon := rapid.SampledFrom([]uint64{0, 1, math.MaxInt64, math.MaxInt64 + 1, math.MaxUint64}).Draw(g.rt, g.l+"eon")
-		idx := g.st.seqCount[eon] // the contract numbers the transactions of an eon consecutively
-		g.st.seqCount[eon] = idx + 1
 		gas := rapid.SampledFrom([]*big.Int{big.NewInt(21000), big.NewInt(1_000_000), big.NewInt(math.MaxInt64),
 			new(big.Int).SetUint64(math.MaxInt64 + 1), new(big.Int).Sub(two256, big.NewInt(1))}).Draw(g.rt, g.l+"gas")
 		prefix := smallHash(0xbb, rapid.IntRange(0, 3).Draw(g.rt, g.l+"prefix"))
 		sender := smallAddr(0x20 + rapid.IntRange(0, 2).Draw(g.rt, g.l+"sender"))
 		encTx := make([]byte, rapid.SampledFrom([]int{0, 1, 32, 45}).Draw(g.rt, g.l+"txlen"))
-		ev := &refEvent{table: "transaction_submitted_event", admissible: eon <= math.MaxInt64 && gas.IsInt64()}
-		ev.cols = map[string]any{"index": int64(idx), "eon": int64(eon), "identity_prefix": prefix.Bytes(), "sender": sender.Hex(), "gas_limit": gas.Int64()}
-		ev.key = pkOf(ev.cols, []string{"index", "eon"})
-		return encTransactionSubmitted(sequencerAddr, eon, idx, prefix, sender, encTx, gas), ev
+		return mkSequencerEvent(g.st, eon, prefix, sender, encTx, gas)
 	},
 	extra: func(m *machine, sh *shadowDB, n uint64, hash []byte) (string, string) {
 		// the status row also records the slot of the position's block
@@ -270,6 +257,52 @@ var kindSequencer = &kindSpec{
 		}
 		return "", ""
 	},
+}
+
+// mkRegistryEvent is IdentityRegistered for identity number id (prefix and
+// sender are functions of id); the contract refuses identities already
+// registered on the same chain, which the caller guarantees.
+func mkRegistryEvent(st *branchState, id int, eon, ts uint64) (fakechain.LogSpec, *refEvent) {
+	st.regUsed[fmt.Sprint(id)] = true
+	prefix, sender := smallHash(0xaa, id+1), smallAddr(0x10+id%3)
+	ev := &refEvent{table: "identity_registered_event", admissible: eon <= math.MaxInt64}
+	ev.cols = map[string]any{
+		"eon": int64(eon), "identity_prefix": prefix.Bytes(), "sender": sender.Hex(), "timestamp": int64(ts),
+		"decrypted": false, "identity": identityOf(prefix.Bytes(), sender.Bytes()),
+	}
+	ev.key = pkOf(ev.cols, []string{"identity_prefix", "sender"})
+	return encIdentityRegistered(registryAddr, eon, prefix, sender, ts), ev
+}
+
+// mkSequencerEvent is TransactionSubmitted; the contract numbers the
+// transactions of an eon consecutively.
+func mkSequencerEvent(st *branchState, eon uint64, prefix common.Hash, sender common.Address, encTx []byte, gas *big.Int) (fakechain.LogSpec, *refEvent) {
+	idx := st.seqCount[eon]
+	st.seqCount[eon] = idx + 1
+	ev := &refEvent{table: "transaction_submitted_event", admissible: eon <= math.MaxInt64 && gas.IsInt64()}
+	ev.cols = map[string]any{"index": int64(idx), "eon": int64(eon), "identity_prefix": prefix.Bytes(), "sender": sender.Hex(), "gas_limit": gas.Int64()}
+	ev.key = pkOf(ev.cols, []string{"index", "eon"})
+	return encTransactionSubmitted(sequencerAddr, eon, idx, prefix, sender, encTx, gas), ev
+}
+
+// mkTriggerEvent is EventTriggerRegistered in block num; the contract emits
+// block.number + ttl as expiration.
+func mkTriggerEvent(st *branchState, num, eon uint64, prefix common.Hash, sender common.Address, defBytes []byte, valid bool, ttl uint64) (fakechain.LogSpec, *refEvent) {
+	exp := num + ttl
+	ev := &refEvent{table: "event_trigger_registered_event", expiry: exp,
+		admissible: eon <= math.MaxInt64 && exp <= math.MaxInt64 && valid}
+	ev.cols = map[string]any{
+		"eon": int64(eon), "identity_prefix": prefix.Bytes(), "sender": sender.Hex(), "definition": defBytes,
+		"expiration_block_number": int64(exp), "decrypted": false, "identity": identityOf(prefix.Bytes(), sender.Bytes(), defBytes),
+	}
+	ev.key = pkOf(ev.cols, []string{"eon", "identity"})
+	if ev.admissible {
+		if b, ok := st.trigReg[ev.key]; ok && b < num {
+			ev.reReg = true
+		}
+		st.trigReg[ev.key] = num
+	}
+	return encEventTriggerRegistered(triggerAddr, eon, prefix, sender, defBytes, exp), ev
 }
 
 type trigDef struct {
@@ -292,9 +325,8 @@ var kindMulti = &kindSpec{
 			m.defs = append(m.defs, trigDef{d, d.MarshalBytes()})
 		}
 	},
-	build: func(m *machine, node *dbNode) func(context.Context, *types.Header) error {
+	build: func(m *machine, node *dbNode) (syncFn, func()) {
 		c1, c2, c3 := m.chain.Client(), m.chain.Client(), m.chain.Client()
-		m.clients = append(m.clients, c1.Close, c2.Close, c3.Close)
 		contract, err := triggerBindings.NewShuttereventtriggerregistryv1(triggerAddr, c1)
 		if err != nil {
 			panic(err)
@@ -305,7 +337,7 @@ var kindMulti = &kindSpec{
 			panic(err)
 		}
 		s.MaxRequestBlockRange = m.maxRange
-		return s.Sync
+		return s.Sync, func() { c1.Close(); c2.Close(); c3.Close() }
 	},
 	genLog: func(g *genCtx) (fakechain.LogSpec, *refEvent) {
 		switch rapid.IntRange(0, 13).Draw(g.rt, g.l+"class") {
@@ -340,21 +372,7 @@ var kindMulti = &kindSpec{
 		}
 		// the contract emits block.number + ttl (checked arithmetic)
 		ttl := rapid.SampledFrom([]uint64{0, 1, 3, 12, 40, 40, 1 << 63}).Draw(g.rt, g.l+"ttl")
-		exp := g.num + ttl
-		ev := &refEvent{table: "event_trigger_registered_event", expiry: exp,
-			admissible: eon <= math.MaxInt64 && exp <= math.MaxInt64 && valid}
-		ev.cols = map[string]any{
-			"eon": int64(eon), "identity_prefix": prefix.Bytes(), "sender": sender.Hex(), "definition": defBytes,
-			"expiration_block_number": int64(exp), "decrypted": false, "identity": identityOf(prefix.Bytes(), sender.Bytes(), defBytes),
-		}
-		ev.key = pkOf(ev.cols, []string{"eon", "identity"})
-		if ev.admissible {
-			if b, ok := g.st.trigReg[ev.key]; ok && b < g.num {
-				ev.reReg = true
-			}
-			g.st.trigReg[ev.key] = g.num
-		}
-		return encEventTriggerRegistered(triggerAddr, eon, prefix, sender, defBytes, exp), ev
+		return mkTriggerEvent(g.st, g.num, eon, prefix, sender, defBytes, valid, ttl)
 	},
 	extra: func(m *machine, sh *shadowDB, n uint64, hash []byte) (string, string) {
 		// fired_triggers is judged for soundness here (completeness is C16):
@@ -457,6 +475,12 @@ func newMachine(rt *rapid.T, k *kindSpec) *machine {
 	specs := append(append([]tableSpec{k.status}, k.exact...), k.other...)
 	m.shadow = newShadow(specs...)
 	return m
+}
+
+func (m *machine) start() {
+	var cl func()
+	m.sync, cl = m.k.build(m, m.node)
+	m.clients = append(m.clients, cl)
 }
 
 func (m *machine) close() {
@@ -725,6 +749,18 @@ func (m *machine) crossCheckShadow(srv *pgfake.Server, sh *shadowDB) {
 	}
 }
 
+// checkEngine turns an engine gap of pgfake into "inconclusive".
+func (m *machine) checkEngine(srv *pgfake.Server) {
+	if u := srv.Unsupported(); len(u) > 0 {
+		recC15.Inconclusive(fmt.Sprintf("pgfake: unsupported SQL: %v", u))
+		msg := fmt.Sprintf("pgfake could not execute a statement (inconclusive): %v", u)
+		if m.rt != nil {
+			m.rt.Fatalf("%s", msg)
+		}
+		panic(msg)
+	}
+}
+
 func applyFault(c *fakechain.Chain, srv *pgfake.Server, f faultSpec) {
 	switch f.kind {
 	case "rpc":
@@ -754,13 +790,11 @@ func clearFault(c *fakechain.Chain, srv *pgfake.Server, f faultSpec) (fired bool
 func (m *machine) doSync(x *fakechain.Block, f faultSpec) *failure {
 	before := m.status(m.shadow)
 	wasDirty := m.dirty()
+	stale := m.staleDepth()
 	applyFault(m.chain, m.node.Srv, f)
 	err := m.sync(context.Background(), types.CopyHeader(x.Header))
 	fired := clearFault(m.chain, m.node.Srv, f)
-	if u := m.node.Srv.Unsupported(); len(u) > 0 {
-		recC15.Inconclusive(fmt.Sprintf("pgfake: unsupported SQL: %v", u))
-		m.rt.Fatalf("pgfake could not execute a statement (inconclusive): %v", u)
-	}
+	m.checkEngine(m.node.Srv)
 	fail, rollbacks, advances := m.absorbCommits(m.node.Srv, m.shadow, true)
 	m.crossCheckShadow(m.node.Srv, m.shadow)
 	after := m.status(m.shadow)
@@ -789,11 +823,10 @@ func (m *machine) doSync(x *fakechain.Block, f faultSpec) *failure {
 		m.nontrivial = true
 	}
 	if rollbacks > 0 {
-		depth := 0
-		if before.ok {
-			depth = int(before.number - ancestorCommon(m, before.number))
+		m.label(fmt.Sprintf("reorg-rollback:depth=%d", stale))
+		if stale == 0 {
+			m.label("rollback-without-fork(empty-hash)")
 		}
-		m.label(fmt.Sprintf("reorg-rollback:depth=%d", depth))
 		if after.ok && m.chain.IsCanonical(after.number, after.hash) {
 			m.label("reorg-resynced")
 			m.nontrivial = true
@@ -812,20 +845,22 @@ func (m *machine) doSync(x *fakechain.Block, f faultSpec) *failure {
 	return fail
 }
 
-// ancestorCommon returns the highest number <= n whose synced-from block is
-// still canonical (used only for labels).
-func ancestorCommon(m *machine, n uint64) uint64 {
-	low := n
+// staleDepth is the number of synced blocks that are no longer canonical
+// (0 = the database content is consistent with the canonical chain).
+func (m *machine) staleDepth() int {
+	st := m.status(m.shadow)
+	if !st.ok {
+		return 0
+	}
+	low := st.number
 	for _, s := range m.segs {
-		b := s.blk
-		for b != nil && b.Number() >= s.from && m.chain.Canonical(b.Number()) != b {
+		for b := s.blk; b != nil && b.Number() >= s.from && m.chain.Canonical(b.Number()) != b; b = b.Parent {
 			if b.Number()-1 < low {
 				low = b.Number() - 1
 			}
-			b = b.Parent
 		}
 	}
-	return low
+	return int(st.number - low)
 }
 
 // ---------------------------------------------------------------------------
@@ -844,7 +879,8 @@ func (m *machine) actExtend(l string) {
 	case c < 18:
 		k = rapid.IntRange(6, 30).Draw(m.rt, l+"len")
 	default:
-		k = rapid.IntRange(fixedMaxSpan+1, 2*fixedMaxSpan+500).Draw(m.rt, l+"jump")
+		span := int(m.k.maxSpan(m))
+		k = rapid.IntRange(span+1, 2*span+span/20+2).Draw(m.rt, l+"jump")
 	}
 	n := m.extendTip(t, k, l)
 	m.chain.SetHead(t.blk)
@@ -868,7 +904,9 @@ func (m *machine) extendTip(t *tip, k int, l string) int {
 		for j := 0; j < 3; j++ {
 			with[rapid.IntRange(0, k-1).Draw(m.rt, fmt.Sprintf("%shasAt%d", l, j))] = true
 		}
-		with[fixedMaxSpan-1], with[fixedMaxSpan] = rapid.Bool().Draw(m.rt, l+"hasSpanEdgeA"), rapid.Bool().Draw(m.rt, l+"hasSpanEdgeB")
+		if span := int(m.k.maxSpan(m)); span < k {
+			with[span-1], with[span] = rapid.Bool().Draw(m.rt, l+"hasSpanEdgeA"), rapid.Bool().Draw(m.rt, l+"hasSpanEdgeB")
+		}
 	}
 	return m.addBlocks(t, k, with, l)
 }
@@ -883,19 +921,28 @@ func (m *machine) minForkPoint() uint64 {
 	return st.number - reorgDepth
 }
 
-// reRegFloor is the highest canonical block that re-registers a trigger key
-// first registered in an earlier block; abandoning it is the
-// reregistered-trigger-lost-on-rollback class.
-func (m *machine) reRegFloor(t *tip) uint64 {
-	var floor uint64
-	for mt := t.meta; mt != nil; mt = mt.prev {
-		for i := range mt.evs {
-			if mt.evs[i].reReg && mt.num > floor {
-				floor = mt.num
-			}
-		}
+// rollbackLosesReReg reports whether a rollback from position n (deleting
+// the rows of blocks n-9..n) would delete a trigger row whose key has an
+// admissible registration at or below n-10 and another one inside the window:
+// the reregistered-trigger-lost-on-rollback class. Evaluated on the current
+// canonical chain, which is the one the rows were synced from.
+func (m *machine) rollbackLosesReReg(n uint64) bool {
+	if m.k != kindMulti || n < reorgDepth {
+		return false
 	}
-	return floor
+	below := map[string]bool{}
+	lose := false
+	m.eachCanonicalEvent(m.k.first(m.syncStart), n, func(b *fakechain.Block, ev *refEvent) {
+		if ev.table != "event_trigger_registered_event" || !ev.admissible {
+			return
+		}
+		if b.Number() <= n-reorgDepth {
+			below[ev.key] = true
+		} else if below[ev.key] {
+			lose = true
+		}
+	})
+	return lose
 }
 
 func (m *machine) actFork(l string) bool {
@@ -905,11 +952,10 @@ func (m *machine) actFork(l string) bool {
 		return false
 	}
 	lo := m.minForkPoint()
-	if m.excl.reReg {
-		if f := m.reRegFloor(t); f > lo {
-			recC15.Excluded(sigReRegLost)
-			lo = f
-		}
+	if st := m.status(m.shadow); m.excl.reReg && st.ok && m.rollbackLosesReReg(st.number) {
+		// only forks above the position (no rollback follows)
+		recC15.Excluded(sigReRegLost)
+		lo = max(lo, st.number)
 	}
 	if lo > tipN-1 {
 		return false
@@ -945,10 +991,8 @@ func (m *machine) actFork(l string) bool {
 func (m *machine) actSwitch(l string) bool {
 	lo := m.minForkPoint()
 	cur := m.curTip()
-	if m.excl.reReg {
-		if f := m.reRegFloor(cur); f > lo {
-			lo = f
-		}
+	if st := m.status(m.shadow); m.excl.reReg && st.ok && m.rollbackLosesReReg(st.number) {
+		lo = max(lo, st.number)
 	}
 	var cands []int
 	for i, t := range m.tips {
@@ -999,9 +1043,9 @@ func (m *machine) drawFault(l string, x *fakechain.Block) faultSpec {
 		}
 	}
 	if kind == "rpc" {
-		return faultSpec{kind, rapid.IntRange(1, 7).Draw(m.rt, l+"rpcAt")}
+		return faultSpec{kind, rapid.SampledFrom([]int{1, 1, 2, 2, 3, 3, 4, 5, 6}).Draw(m.rt, l+"rpcAt")}
 	}
-	return faultSpec{kind, rapid.IntRange(1, 16).Draw(m.rt, l+"dbAt")}
+	return faultSpec{kind, rapid.IntRange(1, 13).Draw(m.rt, l+"dbAt")}
 }
 
 func (m *machine) actSync(l string) *failure {
@@ -1010,7 +1054,7 @@ func (m *machine) actSync(l string) *failure {
 	st := m.status(m.shadow)
 	maxN := tipN
 	if st.ok && m.dirty() && st.number+1 < maxN {
-		if m.weak && m.unjudged == "" && rapid.IntRange(0, 2).Draw(m.rt, l+"skipDetection") == 0 {
+		if m.weak && m.unjudged == "" && rapid.IntRange(0, 2).Draw(m.rt, l+"skipDetection") > 0 {
 			// the weaker reading of the precondition: a head beyond position+1
 			if m.failedDetect {
 				m.unjudged = "weak:skip-after-failed-detection"
@@ -1037,6 +1081,15 @@ func (m *machine) actSync(l string) *failure {
 	} else if st.ok && n == st.number {
 		m.label("head-repeats")
 	}
+	if m.excl.reReg && st.ok && n == st.number+1 && !m.chain.IsCanonical(st.number, st.hash) && m.rollbackLosesReReg(st.number) {
+		// presenting position+1 now triggers a (further) rollback of that class
+		recC15.Excluded(sigReRegLost)
+		if m.dirty() || n == tipN {
+			n = st.number
+		} else {
+			n = tipN
+		}
+	}
 	x := m.chain.Canonical(n)
 	return m.doSync(x, m.drawFault(l, x))
 }
@@ -1049,7 +1102,8 @@ var recC15 = recorder("C15")
 func (m *machine) initChain() {
 	var p int
 	if rapid.IntRange(0, 5).Draw(m.rt, "longStart") == 0 {
-		p = rapid.IntRange(fixedMaxSpan, 2*fixedMaxSpan+100).Draw(m.rt, "initialLength")
+		span := int(m.k.maxSpan(m))
+		p = rapid.IntRange(span, 2*span+span/20+2).Draw(m.rt, "initialLength")
 	} else {
 		p = rapid.IntRange(0, 30).Draw(m.rt, "initialLength")
 	}
@@ -1063,13 +1117,13 @@ func (m *machine) initChain() {
 	default:
 		m.syncStart = uint64(rapid.IntRange(0, p+2).Draw(m.rt, "syncStart"))
 	}
-	m.weak = rapid.IntRange(0, 7).Draw(m.rt, "weakReading") == 0
+	m.weak = rapid.IntRange(0, 5).Draw(m.rt, "weakReading") == 0
 	n := 0
 	if p > 0 {
 		n = m.extendTip(m.tips[0], p, "init")
 		m.chain.SetHead(m.tips[0].blk)
 	}
-	m.sync = m.k.build(m, m.node)
+	m.start()
 	m.hist = append(m.hist, fmt.Sprintf("%s start=%d maxRange=%d init%d[e%d]", m.k.name, m.syncStart, m.k.maxSpan(m), p, n))
 }
 
